@@ -257,6 +257,10 @@ def rule_clip(chk: Check, model, rid: str, cv: CompiledView):
         mx = T.mk_index(T.mk_attr(T.mk_attr(T.mk_call("next", [T.mk_call("iter", [T.mk_call("timings.slots.values", [])])]), "run"), "shape"), T.const(dim))
         clipped = T.mk_call("jax.numpy.clip", [S(field), T.ZERO, T.sub(mx, T.ONE)])
         got = dict(r.ret[2]) if r.ret[0] == "replace" and r.ret[1] == S("self") else {}
+        # jnp.clip(x, lo, hi) spelled out: minimum(hi, maximum(lo, x)) (min(a, b) = -max(-a, -b) in the normal form of max-terms)
+        spelled = T.neg(T.mk_max([T.neg(T.sub(mx, T.ONE)), T.neg(T.mk_max([T.ZERO, S(field)]))]))
+        if got.get(field) == spelled:
+            clipped = spelled
         chk.add(rid, f"{name}: stored value", got.get(field) == clipped, f"{name} stores {field} = {T.show(got.get(field, T.NONE))[:160]}, expected jnp.clip({field}, 0, max - 1)", chk.loc(fi))
         if name == "replace_eps":
             chk.add(rid, "replace_eps: timings of the clipped episode", got.get("timings_eps") == T.mk_call("rex.jax_utils.tree_take", [S("timings"), clipped]),
